@@ -4,7 +4,8 @@ translation and the model (vm_compute).  Oracle for the element-level operations
 import itertools, json, os, random, concurrent.futures
 import vlib, pydiff
 
-THEOREMS = ["C13_indices", "C13_count", "C13_loop", "C13_gen_agrees_on_lattice", "C13_range_length"]
+THEOREMS = ["C13_indices", "C13_count", "C13_loop", "C13_gen_agrees_on_lattice", "C13_range_length",
+            "C13_list_getslice", "C13_list_delslice", "C13_list_setslice", "C13_list_items", "C13_list_ops_never_panic"]
 BIG = [2**62, 2**63 - 1, 2**63, 2**64]
 
 def idx_values(tier):
@@ -61,6 +62,59 @@ def coq_gi(name, obs):
       "Fixpoint bad (i : nat) (l : list (Z * option Z * option Z * option Z * option (Z*Z*Z*Z))) : list nat := match l with [] => [] | (n,a,b,c,o) :: r => if eq4 (gen4 n a b c) o && eq4 (get_indices n a b c) o then bad (S i) r else i :: bad (S i) r end.\n"
       "Definition M := Eval vm_compute in bad 0 cases.\nPrint M.\n")
     rc, out = vlib.coqc_run(name, text, timeout=400)
+    if rc != 0: return None, out[-1500:]
+    v = vlib.parse_coq_value("M " + out[out.find("M ="):].replace("M =", " =", 1)) if "M =" in out else None
+    return v, out[-300:]
+
+# ---------------- list / tuple element operations through the Go API vs Model/ListOps.v
+def ops_cases(tier, seed):
+    """(command line for `impl c13`, Coq (lop, n, a, b, c)) pairs"""
+    rnd = random.Random(seed + 131)
+    vals = idx_values(tier)
+    triples = [(a, b, c) for a in vals for b in vals for c in vals]
+    out = []
+    for n in range(0, 7 if tier == "thorough" else 6):
+        ts = triples if tier == "thorough" else rnd.sample(triples, 220)
+        for a, b, c in ts:
+            abc = "%s %s %s" % (fmt(a), fmt(b), fmt(c)); cq = "%s, %s, %s" % (coq_opt(a), coq_opt(b), coq_opt(c))
+            out.append(("lg %d %s" % (n, abc), "(LGet, %d%%nat, %s)" % (n, cq)))
+            out.append(("tg %d %s" % (n, abc), "(TGet, %d%%nat, %s)" % (n, cq)))
+            out.append(("ld %d %s" % (n, abc), "(LDel, %d%%nat, %s)" % (n, cq)))
+            for k in sorted(set([0, 1, 2, 3, n])):
+                out.append(("ls %d %s %d" % (n, abc, k), "(LSet %d, %d%%nat, %s)" % (k, n, cq)))
+        for i in [v for v in vals if v is not None]:
+            for cmd, op in (("li", "IGet"), ("lS", "ISet"), ("lD", "IDel")):
+                out.append(("%s %d %d" % (cmd, n, i), "(%s, %d%%nat, %s, None, None)" % (op, n, coq_opt(i))))
+    return out
+
+def run_ops(cases):
+    chunks = [cases[i::8] for i in range(8)]
+    def work(ch):
+        if not ch: return []
+        rc, out = vlib.run_tool("impl", ["c13"], input="".join(c[0] + "\n" for c in ch))
+        lines = [l for l in out.split("\n") if l and not l.startswith("WARNING")]
+        lines = (lines + ["WORKER-DIED"] * len(ch))[:len(ch)]
+        return list(zip(ch, lines))
+    res = [None] * len(cases)
+    with concurrent.futures.ThreadPoolExecutor(8) as ex:
+        for k, r in enumerate(ex.map(work, chunks)):
+            for j, x in enumerate(r): res[k + 8 * j] = x
+    return res
+
+def coq_ops(name, obs):
+    rows = []
+    for (cmd, cq), o in obs:
+        if o.startswith("[") and o.endswith("]"):
+            ob = "Ok [%s]" % "; ".join("(%s)" % x for x in o[1:-1].split())
+        elif o == "E:ValueError": ob = "ValueErr"
+        elif o == "E:IndexError": ob = "IndexErr"
+        else: ob = "Panic"
+        rows.append("(%s, %s)" % (cq, ob))
+    text = ("From Coq Require Import ZArith Bool List. Import ListNotations.\nFrom GP Require Import Model.ListOps.\nOpen Scope Z_scope.\n"
+      "Definition cases : list ((lop * nat * option Z * option Z * option Z) * res Z) := [\n" + ";\n".join(rows) + "].\n"
+      "Fixpoint bad (i : nat) (l : list ((lop * nat * option Z * option Z * option Z) * res Z)) : list nat := match l with [] => [] | ((o, n, a, b, c), r) :: t => if res_eqb (run_op o n a b c) r then bad (S i) t else i :: bad (S i) t end.\n"
+      "Definition M := Eval vm_compute in bad 0 cases.\nPrint M.\n")
+    rc, out = vlib.coqc_run(name, text, timeout=900)
     if rc != 0: return None, out[-1500:]
     v = vlib.parse_coq_value("M " + out[out.find("M ="):].replace("M =", " =", 1)) if "M =" in out else None
     return v, out[-300:]
@@ -152,7 +206,8 @@ def check(res):
     tier, seed = res.tier, res.seed
     res.trusted = vlib.COMMON_TRUST + [
         "go2v translation of Slice.GetIndices and the range helpers (validated against the real functions through the Go API)",
-        "element-level list/tuple/str/range/bytes operations are NOT modelled in Coq beyond the shared slicing loop: they are compared with CPython 3.11 (validated oracle; testing, not proof)",
+        "Model/ListOps.v is hand-written from List.M__getitem__/M__setitem__/M__delitem__/DelItem and Tuple.M__getitem__; tied to the code by running both on the same operations (Go API harness, vm_compute)",
+        "element-level str/range/bytes operations are NOT modelled in Coq beyond the shared slicing loop: they are compared with CPython 3.11 (validated oracle; testing, not proof)",
         "aliasing / operand corruption is observed by the harness only (mutate the result, re-read the operand)"]
     res.assumptions = ["sequence lengths are below 2**63-1", "CPython 3.11 agrees with Python 3.4 on the generated sequence operations"]
     rc, out = vlib.run_tool("go2v", ["-repo", vlib.REPO, "-out", os.path.join(vlib.COQ, "Gen")])
@@ -181,6 +236,20 @@ def check(res):
         tie_err = "Gen/py_slice.v or Model/Slice.v did not compile"
     res.oblige("correspondence: Slice.GetIndices (implementation) = go2v translation = model on %d triples (vm_compute)" % len(obs),
                tie_err is None and not tie_bad, tie_err or str(tie_bad[:3]))
+    # --- tie: list / tuple element operations through the Go API vs Model/ListOps.v
+    ocases = ops_cases(tier, seed)
+    oobs = run_ops(ocases)
+    ops_bad = []; ops_err = None
+    if "Model/ListOps.vo" in built:
+        oshards = [oobs[i:i + 6000] for i in range(0, len(oobs), 6000)]
+        with concurrent.futures.ThreadPoolExecutor(8) as ex:
+            for sh, (v, log) in zip(oshards, ex.map(lambda a: coq_ops("C13_ops_%d" % a[0], a[1]), list(enumerate(oshards)))):
+                if v is None: ops_err = log
+                else: ops_bad += [(sh[i][0][0], sh[i][1]) for i in v]
+    else:
+        ops_err = "Model/ListOps.v did not compile"
+    res.oblige("correspondence: list/tuple getitem, slicing, slice assignment, slice deletion through the Go API = Model/ListOps.v on %d operations (vm_compute)" % len(oobs),
+               ops_err is None and not ops_bad, ops_err or str(ops_bad[:3]))
     # --- oracle: element-level operations vs CPython
     progs, meta = elem_programs(tier, seed)
     impl = pydiff.run_impl(progs); ref = pydiff.run_ref(progs)
@@ -210,17 +279,23 @@ def check(res):
     res.coverage.update(evaluations=len(cases) + nlines, distinct_nontrivial=nontrivial + sum(1 for c in cases if any(v is not None and abs(v) >= 2**62 for v in c[1:])),
         rule="(a) Slice.GetIndices through the Go API on (length, start, stop, step) triples over {None, -9..9, +-2**62, +-(2**63-1), +-2**63, +-2**64} plus seeded large lengths, compared inside Coq with the go2v translation and the model; (b) programs applying getitem/slice/setslice/delslice/concat/repeat/len/in/compare/iterate to str, list, tuple, range, bytes of lengths 0..6, compared line by line with CPython; non-trivial = negative/absent/huge bound or non-unit step",
         samples=[dict(getindices=dict(len=c[0][0], start=fmt(c[0][1]), stop=fmt(c[0][2]), step=fmt(c[0][3])), observed=c[1]) for c in obs[:3]] + [meta[0][0]],
-        distribution=dict(getindices_cases=len(cases), element_lines=nlines, per_type_op=dist),
+        distribution=dict(getindices_cases=len(cases), list_model_operations=len(oobs), element_lines=nlines, per_type_op=dist),
         oracle_disagreements=len(mism), matched_known_findings=len(known),
-        modelled_not_verified=["per-type element loops beyond the shared slicing loop", "Go slice aliasing"])
+        modelled_not_verified=["element loops of str / range / bytes (list and tuple loops are modelled: Model/ListOps.v)", "Go slice aliasing and capacity (C17)"])
     if mism:
         case, got, exp = mism[0]
         res.violation("counterexample", "sequence operation differs from Python's sequence model",
                       dict(input=case, expected=exp, observed=got, others=[dict(input=c, observed=g, expected=e) for c, g, e in mism[1:8]],
                            how_to_rerun="python3 tools/check.py C13 --replay <this file>"))
         return
-    if not p_ok or tie_bad or tie_err or rc != 0:
-        what = "theorems of Props/C13.v" if not p_ok else "correspondence GetIndices implementation/translation/model"
+    if ops_bad:
+        cmd, got = ops_bad[0]
+        res.violation("counterexample", "list operation through the Go API differs from the proved model (Model/ListOps.v, Props/C13.v C13_list_*)",
+                      dict(input=dict(harness_command="impl c13", line=cmd, meaning="lg/tg: x[a:b:c] on list/tuple [10..10+n-1]; ls: x[a:b:c] = [90..]; ld: del x[a:b:c]; li/lS/lD: x[i], x[i] = 77, del x[i]"),
+                           observed=got, expected="the model's result (python3 tools/check.py C13 --replay <this file> recomputes it)", others=[dict(line=c, observed=g) for c, g in ops_bad[1:8]]))
+        return
+    if not p_ok or tie_bad or tie_err or rc != 0 or ops_err:
+        what = "theorems of Props/C13.v" if not p_ok else ("correspondence list operations / Model/ListOps.v: " + str(ops_err) if ops_err and not (tie_bad or tie_err) else "correspondence GetIndices implementation/translation/model")
         res.violation("proof-broken" if not p_ok else "tie-broken", "C13 no longer shown: " + what,
                       dict(theorem_or_correspondence=what, go2v=out.strip()[-800:],
                            coqc_error=[l for l in mlog.splitlines() if "rror" in l][-10:],
